@@ -117,6 +117,14 @@ func (_this *Session) GetIteratorForType(t reflect.Type) IteratorFunction {
 			// Don't leave the placeholder behind: every later use of this
 			// type would wait forever for an iterator that never arrives.
 			_this.iteratorFuncs.Delete(t)
+			// Nor the iterators that were built on top of it meanwhile
+			// (pointers to it, slices of it...): a fresh session has none.
+			_this.iteratorFuncs.Range(func(key, _ interface{}) bool {
+				if common.TypeReaches(key.(reflect.Type), t) {
+					_this.iteratorFuncs.Delete(key)
+				}
+				return true
+			})
 			iterator = func(context *Context, value reflect.Value) { panic(r) }
 			wg.Done()
 			panic(r)
